@@ -92,6 +92,10 @@ func (dep *Dependency) UnmarshalControl(data string) error {
 	ibuf := input{Index: 0, Data: data}
 	dep.Relations = []Relation{}
 	err := parseDependency(&ibuf, dep)
+	if err != nil {
+		/* a rejected field leaves nothing behind */
+		dep.Relations = []Relation{}
+	}
 	return err
 }
 
